@@ -152,7 +152,14 @@ def judge(run):
 
 def run(tier):
     run = X.ExecRun(PROP, tier)
-    run.add_cases("c03", make_cases(tier))
+    import checks.c04 as c04
+    names = A.source_names()
+    nest = [j + 1 for j, nm in enumerate(names) if any(k in nm for k in ("s13_", "s17i_"))]
+    ident = []
+    for k, f in enumerate(c04.identity_files()[:12]):
+        for src in nest:
+            ident += A.both_modes("c03i-%d-%d" % (k, src), f, src)
+    run.add_cases("c03", make_cases(tier) + ident)
     run.classify_all()
     stats = judge(run)
     return run.V.finish("model_checking", run.coverage(RULE, {"probe": stats}), X.TRUSTED)
